@@ -413,6 +413,12 @@ func (a *FuncAn) hoist(g Lin) (string, bool) {
 		// the state right before the call: the block's entry facts plus nothing the block itself adds is enough for
 		// the idiom (the call is in the block the guarding branch leads to)
 		if !ca.Entails(c.Block(), l) {
+			// the call site would have to establish it, and what it has there is a value outside its tracked model
+			if why, un := ca.untrackedIn(l); un {
+				a.hoistUntracked = "at the call site in " + FuncShort(c.Parent()) + " it depends on " + why
+			} else if why, un := ca.untrackedNear(c.Block(), l); un {
+				a.hoistUntracked = "at the call site in " + FuncShort(c.Parent()) + " it is known only through " + why
+			}
 			if os.Getenv("LW_HOISTDEBUG") != "" {
 				fmt.Fprintf(os.Stderr, "hoist %s: goal %s fails at site %s in %s: site goal %s; facts %s\n", FuncShort(f), g.String(), c.String(), FuncShort(c.Parent()), l.String(), ca.factsText(c.Block(), l))
 			}
